@@ -13,7 +13,7 @@ ID = "C14"
 LEVEL = "exploration"
 TECHNIQUE = "shadow-registry oracle after every operation + icontract class invariant on Model"
 RULE = ("alphabet {create a, create b, create p (an agent whose initialize() creates a companion agent), a creation whose initialize() raises, a creation whose initialize() deletes the oldest agent of its own type, delete_agents(agent_ids(a)) with the model's own list, create_agents(a,2), delete oldest, delete newest, delete two ids, delete unknown id, "
-        "configure_agents, Model.configure(dictionary), reset, flip state, two transient agents that delete themselves in their reset_cache() hook when idle, Model.reset_cache()}: ALL sequences of length<=3 (quick) / <=4 (thorough), plus 2500 / 60000 seeded random sequences "
+        "configure_agents, Model.configure(dictionary), reset, flip state, an agent whose constructor creates another agent, two transient agents that delete themselves in their reset_cache() hook when idle, Model.reset_cache()}: ALL sequences of length<=3 (quick) / <=4 (thorough), plus 2500 / 60000 seeded random sequences "
         "of length 10-40; after every operation agent(id) for every id ever issued, agent_ids/agent_count per type, "
         "agent_count_per_state and next_agent per (type,state), random_agents. distinct_nontrivial = distinct operation "
         "sequences that contain at least one deletion/reconfiguration followed by a query on a non-empty population.")
@@ -22,8 +22,8 @@ REQUIRED = {"queries": 10000, "invariant_evaluations": 1000}
 BUDGET_S = {"quick": 100, "thorough": 1200}
 
 OPS = ["create_a", "create_b", "create_a2", "del_oldest", "del_newest", "del_two", "del_unknown", "configure", "reset", "flip", "create_p", "del_all_a_alias", "create_fail", "configure_dict", "create_r",
-       "create_t2", "soft_reset"]
-TYPES = ("a", "b", "p", "x", "r", "t")
+       "create_t2", "soft_reset", "create_q"]
+TYPES = ("a", "b", "p", "x", "r", "t", "q")
 STATES = ["active", "idle"]
 
 
@@ -112,6 +112,13 @@ def new_model():
             raise KeyError("capacity")
     m.register_agent_factory("x", lambda i, mod, p: Broken(i, mod, p, "x"))
 
+    class CtorParent(Agent):
+        # like Parent, but the companion is created in the constructor (inside the factory call)
+        def __init__(self, agent_id, model, properties, agent_type):
+            super().__init__(agent_id, model, properties, agent_type)
+            model.create_agent("b", None)
+    m.register_agent_factory("q", lambda i, mod, p: CtorParent(i, mod, p, "q"))
+
     class Transient(Agent):
         # an agent that uses the documented soft-reset hook to take itself out of the model once it is idle
         def reset_cache(self):
@@ -150,10 +157,10 @@ def apply(m, sh, op, counters):
             if ag.id in sh.issued:
                 return dict(kind="id-reused", id=ag.id)
             sh.created(ag, "a")
-    elif name == "create_p":
-        ag = m.create_agent("p", None)
-        new = [a for a in m.agents if a.id not in before]
-        if sorted(a.agent_type for a in new) != ["b", "p"] or len(set(a.id for a in new)) != 2 or ag.agent_type != "p":
+    elif name in ("create_p", "create_q"):
+        ag = m.create_agent(name[-1], None)
+        new = [a for a in m.agents if a.id not in before or a is ag]
+        if sorted(a.agent_type for a in new) != ["b", name[-1]] or len(set(a.id for a in new)) != 2 or ag.agent_type != name[-1]:
             return dict(kind="nested-create", new=[(a.id, a.agent_type) for a in new], returned=(ag.id, ag.agent_type))
         for a2 in sorted(new, key=lambda a: a.id):
             if a2.id in sh.issued:
